@@ -146,7 +146,7 @@ def check_output(ctx, r, out, wit, at0_allowed=True, content_ws=False):
 
 def check_case(ctx, r, indent, eol, content_ws=False):
     try:
-        obj = gen.build(r)
+        obj = gen.build_root(r)
         out = obj.get_html_string(indent, eol)
     except Exception as e:
         ctx.violation("render-raises", "building/rendering raised %r" % e, {"recipe": r, "indent": indent, "eol": eol})
